@@ -625,7 +625,7 @@ def r3_drop_tail_continue(src, ed, fn, which):
     return 1
 
 
-def r9_label_block(src, ed, fn, label):
+def r9_label_block(src, ed, fn, label, entry=None):
     """'l: { .. }  ==>  'l: loop { .. break 'l; }   (a labelled block is a loop that runs once)"""
     lo, hi = fn.body
     hits = []
@@ -640,7 +640,14 @@ def r9_label_block(src, ed, fn, label):
     # side condition: the block is used as a statement (its value is unit): previous token ends a statement
     if src.toks[i - 1].text not in (";", "{", "}"):
         raise Drift("fn %s: labelled block %s is not in statement position" % (fn.key, label))
-    ed.replace(src.toks[i + 2].start, src.toks[i + 2].start, "loop ", "R9", "labelled block -> loop that runs once")
+    spec = entry.get("spec") if entry is not None else ""
+    ed.replace(src.toks[i + 2].start, src.toks[i + 2].start, "loop " + (("\n" + spec.rstrip("\n") + "\n            ") if spec.strip() else ""),
+               "R9", "labelled block -> loop that runs once")
+    if entry is not None and entry.get("body").strip():
+        ed.insert(src.toks[i + 2].end, "\n" + entry.get("body").rstrip("\n") + "\n", "inject-loopbody")
+    exit_txt = (entry.get("exit").rstrip("\n") + "\n") if (entry is not None and entry.get("exit").strip()) else ""
+    if exit_txt:
+        ed.insert(src.toks[close].start, exit_txt, "inject-hint")
     ed.replace(src.toks[close].start, src.toks[close].start, "break %s; " % label, "R9",
                "labelled block -> loop that runs once (exit)")
 
@@ -917,6 +924,42 @@ def r11_unmut_param(src, ed, fn, name):
                   "rebinding of the renamed parameter")
     else:
         raise Drift("fn %s: parameter `%s` not found" % (fn.key, name))
+
+
+def r12_for_bytes_enumerate(src, ed, fn, which):
+    """R12: `for (i, b) in s.bytes().enumerate() { BODY }`  ==>
+            `let __bytes_b = s.as_bytes(); let mut i: usize = 0; while i < __bytes_b.len() { let b = __bytes_b[i]; BODY i += 1; }`
+    (`str::bytes` yields exactly the bytes of `as_bytes()` in order, `enumerate` numbers them from 0).
+    Side conditions checked on the token tree: the receiver is a plain identifier, BODY contains no `continue`
+    and never assigns `i` or `b`, and `i` is not mentioned after the loop in the function."""
+    lp = _find_loop(fn, which)
+    if lp["kw"] != "for":
+        raise Drift("fn %s: loop %s is not a `for`" % (fn.key, which))
+    k = lp["kw_tok"]
+    T = src.toks
+    pat = ["for", "(", None, ",", None, ")", "in", None, ".", "bytes", "(", ")", ".", "enumerate", "(", ")"]
+    for off, want in enumerate(pat):
+        if want is not None and T[k + off].text != want:
+            raise Drift("fn %s: loop %s is not `for (i, b) in s.bytes().enumerate()`" % (fn.key, which))
+    if k + len(pat) != lp["open"]:
+        raise Drift("fn %s: loop %s header has trailing tokens" % (fn.key, which))
+    i, b, recv = T[k + 2].text, T[k + 4].text, T[k + 7].text
+    for t in (T[k + 2], T[k + 4], T[k + 7]):
+        if t.kind != "ident":
+            raise Drift("fn %s: loop %s: pattern / receiver are not identifiers" % (fn.key, which))
+    for j in range(lp["open"] + 1, lp["close"]):
+        if T[j].kind == "ident" and T[j].text == "continue":
+            raise Drift("fn %s: loop %s body contains `continue` (R12 not applicable)" % (fn.key, which))
+        if T[j].kind == "ident" and T[j].text in (i, b) and src.is_(j + 1, "=") and not src.is_(j + 2, "="):
+            raise Drift("fn %s: loop %s body assigns the loop variable %s" % (fn.key, which, T[j].text))
+    for j in range(lp["close"] + 1, fn.body[1]):
+        if T[j].kind == "ident" and T[j].text == i:
+            raise Drift("fn %s: `%s` is used after loop %s (R12 would change its meaning)" % (fn.key, i, which))
+    ed.replace(T[k].start, T[lp["open"] - 1].end,
+               "let __bytes_%s = %s.as_bytes(); let mut %s: usize = 0; while %s < __bytes_%s.len()" % (b, recv, i, i, b),
+               "R12", "for over str::bytes().enumerate() as an indexed while loop")
+    ed.insert(T[lp["open"]].end, " let %s = __bytes_%s[%s];" % (b, b, i), "R12", "loop variable binding")
+    ed.insert(T[lp["close"]].start, "%s += 1; " % i, "R12", "index increment at the end of the body")
 
 
 if __name__ == "__main__":
